@@ -4,10 +4,12 @@ import (
 	"bytes"
 	"context"
 	"encoding/json"
+	"errors"
 	"fmt"
 	"os"
 	"path/filepath"
 	"strings"
+	"syscall"
 	"time"
 
 	cloudstorage "cloud.google.com/go/storage"
@@ -71,11 +73,17 @@ func (fs *filestore) Get(baseUrl HttpBaseUrl, bucket string, filename string) (*
 	return obj, contents, nil
 }
 
+// isNotExist reports whether err means "no such object"; that includes a path below an existing object
+// (a/b when a is a file), which the file system reports as ENOTDIR.
+func isNotExist(err error) bool {
+	return os.IsNotExist(err) || errors.Is(err, syscall.ENOTDIR)
+}
+
 func (fs *filestore) GetMeta(baseUrl HttpBaseUrl, bucket string, filename string) (*storage.Object, error) {
 	f := fs.filename(bucket, filename)
 	fInfo, err := os.Stat(f)
 	if err != nil {
-		if os.IsNotExist(err) {
+		if isNotExist(err) {
 			return nil, nil
 		}
 		return nil, fmt.Errorf("stating  %s: %w", f, err)
@@ -157,7 +165,7 @@ func (fs *filestore) Delete(bucket string, filename string) error {
 
 	err := func() error {
 		// Check if the bucket exists
-		if _, err := os.Stat(f); os.IsNotExist(err) {
+		if _, err := os.Stat(f); isNotExist(err) {
 			return os.ErrNotExist
 		}
 
